@@ -188,6 +188,19 @@ def _spell_num(v, sp):
     raise ValueError(sp)
 
 
+# texts that are NOT numbers although they start, end or look like one (none
+# of them is a date for dateutil either)
+NONNUM = ['xyzzy', 'truest', 'TRUE story', 'Falsetto', 'false!', 'x7', '7x',
+          '1e5x', '7 x', '1,5x', '0x1F', '$7', '(7)', '#7', 'TRUEFALSE',
+          'inf', 'nan', 'Infinity', '-inf', '1_0', '1e', 'e5', '.', '-',
+          '1e400', u'\u0661\u0662x']
+
+
+def _nonnum(fn, pos):
+    import zlib
+    return NONNUM[zlib.crc32(('%s/%d' % (fn, pos)).encode()) % len(NONNUM)]
+
+
 def _spell_text(s, sp):
     xl = lib.lib()
     if sp == 'Text':
@@ -267,13 +280,18 @@ def _spell(case, res):
         return res
     sargs = list(args)
     sargs[pos] = spelled
+    if sp == 'nonnumeric':
+        res.nontrivial = True
+        for t in ('xyzzy', _nonnum(fn, pos), _nonnum(fn, pos + 7)):
+            sargs[pos] = t
+            obs = _call(fn, *sargs)
+            if obs != ('E', '#VALUE!'):
+                b = 'nonnumeric-text:%s:pos%d' % (fn, pos)
+                res.fail(b, ('E', '#VALUE!'), obs, [fn, pos, t])
+                break
+        return res
     obs = _call(fn, *sargs)
     res.nontrivial = True
-    if sp == 'nonnumeric':
-        if obs != ('E', '#VALUE!'):
-            b = 'nonnumeric-text:%s:pos%d' % (fn, pos)
-            res.fail(b, ('E', '#VALUE!'), obs, [fn, pos, 'xyzzy'])
-        return res
     if not _same(obs, canon, fold_case=sp in ('bool', 'Boolean')):
         b = 'spelling:%s:pos%d:%s' % (fn, pos, sp)
         if obs[0] == 'X':
@@ -307,7 +325,7 @@ def _spell_formula(case, res, fn, args, pos, sp, canon):
     elif sp == 'f:blankcell':
         ok, arg = v == 0, 'K9'
     else:
-        ok, arg = True, '"xyzzy"'
+        ok, arg = True, '"%s"' % _nonnum(fn, pos + 3)
     if not ok:
         res.labels += ('spelling-not-applicable',)
         return res
